@@ -127,6 +127,27 @@ func oneOf(x *smt.Term, names ...string) *smt.Term {
 	return smt.Or(ds...)
 }
 
+var rawTextTags = []string{"script", "style", "iframe", "noembed", "noframes", "noscript", "plaintext", "textarea", "title", "xmp"}
+
+// a1RawText is the part of the token contract A1 that relates consecutive
+// tokens: after a start or self-closing tag of a raw-text / RCDATA element the
+// tokenizer delivers the body as one text token, then the matching end tag.
+func a1RawText(steps []*StepVars) *smt.Term {
+	var cs []*smt.Term
+	for j := 0; j+1 < len(steps); j++ {
+		a, b := steps[j], steps[j+1]
+		raw := smt.And(smt.Or(kindIs(a.Kind, 2), kindIs(a.Kind, 4)), oneOf(a.Data, rawTextTags...))
+		closes := func(x *StepVars) *smt.Term { return smt.And(kindIs(x.Kind, 3), smt.Eq(x.Data, a.Data)) }
+		eof := func(x *StepVars) *smt.Term { return kindIs(x.Kind, 0) }
+		cs = append(cs, smt.Implies(raw, smt.Or(kindIs(b.Kind, 1), closes(b), eof(b))))
+		if j+2 < len(steps) {
+			c := steps[j+2]
+			cs = append(cs, smt.Implies(smt.And(raw, kindIs(b.Kind, 1)), smt.Or(closes(c), eof(c))))
+		}
+	}
+	return smt.And(cs...)
+}
+
 // LoopRun bundles the extracted relation for one harness variant.
 type LoopRun struct {
 	In    *sym.Interp
@@ -135,8 +156,8 @@ type LoopRun struct {
 	PS    *PolicySyms
 }
 
-func (c *Ctx) loopSetup(ev *Evidence, harness string, maxAttrs int) (*LoopRun, error) {
-	in, err := c.NewInterp(sym.Config{MaxAttrs: maxAttrs, NoFeasCheck: true, Stubs: map[string]string{sanitizeAttrsFn: "stubSanitizeAttrs"}})
+func (c *Ctx) loopSetup(ev *Evidence, harness string, maxAttrs int, names ...string) (*LoopRun, error) {
+	in, err := c.NewInterp(sym.Config{MaxAttrs: maxAttrs, TokenNames: names, NoFeasCheck: true, Stubs: map[string]string{sanitizeAttrsFn: "stubSanitizeAttrs"}})
 	if err != nil {
 		return nil, err
 	}
@@ -160,6 +181,11 @@ func (c *Ctx) loopSetup(ev *Evidence, harness string, maxAttrs int) (*LoopRun, e
 	ev.AddStates(len(t.Paths))
 	ev.Func("(*Policy).sanitize [token loop body, loop state havocked]", "(*Policy).matchRegex", "(*Policy).allowNoAttrs", "normaliseElementName", "(*Policy).init", "(*asStringWriter).WriteString")
 	ev.Bound("token_attrs_max", maxAttrs)
+	if len(names) > 0 {
+		ev.Bound("element_names", fmt.Sprintf("drawn from %q (generic names plus the literals the code and the monitors distinguish); the loop and the monitors use names only in equality tests, table lookups and opaque pattern predicates", names))
+	} else {
+		ev.Bound("element_names", "arbitrary strings satisfying the token contract")
+	}
 	ev.Bound("policy_tables", "explicit elements<=2, element patterns<=2, bare patterns<=2 (each implied by the element pattern of the same index), skip-content entries<=2, bare entries<=2; all keys, patterns and switches symbolic")
 	ev.Bound("step_paths_syntactic", len(steps.Paths))
 	ev.Bound("step_paths_feasible", len(t.Paths))
@@ -172,6 +198,14 @@ func (c *Ctx) loopSetup(ev *Evidence, harness string, maxAttrs int) (*LoopRun, e
 	return &LoopRun{In: in, Steps: steps, T: t, PS: collectPolicySyms(t)}, nil
 }
 
+func (lr *LoopRun) grace(timeout time.Duration) time.Duration {
+	g := timeout / 4
+	if g > 8*time.Second {
+		g = 8 * time.Second
+	}
+	return g
+}
+
 // solve runs one query built from terms (adds side conditions).
 func (lr *LoopRun) solve(name string, asserts []*smt.Term, values []*smt.Term, timeout time.Duration) smt.Result {
 	full := smt.And(asserts...)
@@ -181,7 +215,7 @@ func (lr *LoopRun) solve(name string, asserts []*smt.Term, values []*smt.Term, t
 	as := append([]*smt.Term{full}, sym.SideConditions([]*smt.Term{full})...)
 	var r smt.Result
 	lr.In.WithWorker(func(w *smt.Worker) {
-		r = w.Check(&smt.Query{Name: name, Asserts: as, Values: values, Timeout: timeout, Both: true, Grace: timeout / 2})
+		r = w.Check(&smt.Query{Name: name, Asserts: as, Values: values, Timeout: timeout, Both: true, Grace: lr.grace(timeout)})
 	})
 	return r
 }
@@ -481,7 +515,7 @@ func (c *Ctx) searchWitness(lr *LoopRun, ev *Evidence, label string, maxK int, a
 		for _, sv := range steps[:k-1] {
 			base = append(base, smt.Not(sv.Returned))
 		}
-		base = append(base, ps.WellFormed())
+		base = append(base, ps.WellFormed(), a1RawText(steps))
 		if assume != nil {
 			base = append(base, assume(steps))
 		}
